@@ -31,7 +31,7 @@ MIN = {
     "quick": {"majors_preserved": 200, "minor_of_major": 200, "core_never_dropped": 200,
               "added_has_copies_and_support": 60, "carried_has_support": 200, "one_per_site": 200,
               "supported_variant_carried": 200, "score_equals_objective": 150, "none_lower": 100,
-              "noise_free_reproduces": 150},
+              "noise_free_reproduces": 150, "filter_as_documented": 2000},
     "thorough": {"majors_preserved": 4000, "minor_of_major": 4000, "core_never_dropped": 4000,
                  "added_has_copies_and_support": 2000, "carried_has_support": 4000, "one_per_site": 4000,
                  "supported_variant_carried": 4000, "score_equals_objective": 3000, "none_lower": 2000,
@@ -306,6 +306,42 @@ def check_minor_call(res, call, desc, planted=None, noise_free=False, check_opt=
     return nontrivial
 
 
+def check_filter(res, g, raw, call, desc):
+    """The evidence handed to the model is the documented filter of the raw evidence: a variant keeps its support
+    iff it has at least min_coverage supporting reads, at least threshold / cn_max of the locus depth and at least
+    threshold / (copies at that site + 0.5) of it; uncatalogued variants outside exons / UTRs / upstream are dropped;
+    a reference allele needs min_coverage and threshold / cn_max only.  (All observations here pass the quality
+    thresholds; C15 covers those.)"""
+    from aldy.gene import Mutation
+
+    from ..ref import evidence
+
+    prof = raw.profile
+    cn = call["major_sol"].cn_solution
+    fil = call["cov"]
+    considered = set(call["mutations"])
+    sites = {m.pos for m in considered}
+    todo = set(considered) | {Mutation(p, "_") for p in sites}
+    for p in sites:
+        for op in raw._coverage.get(p, {}):
+            todo.add(Mutation(p, op))
+    for m in sorted(todo):
+        sup, dep = evidence.support(raw, m), evidence.locus_depth(raw, m)
+        keep = sup >= max(prof.min_coverage, dep * prof.threshold / prof.cn_max)
+        if m.op != "_":
+            keep = keep and sup >= max(prof.min_coverage, dep * prof.threshold / (cn.position_cn(m.pos) + 0.5))
+        if m.op not in ("_", "-") and m not in considered:
+            r = g.region_at(m.pos)
+            keep = keep and bool(r) and (r[1][0] == "e" or r[1] in ("utr3", "utr5", "up"))
+        if sup == 0:
+            continue
+        got = evidence.support(fil, m) > 0
+        res.check("filter_as_documented", got == keep,
+                  "filtered evidence of a variant differs from the documented noise filter",
+                  variant=str(m), support=sup, locus_depth=dep, copies_at_site=cn.position_cn(m.pos),
+                  kept=got, expected_kept=keep, **desc)
+
+
 def _phases_for(g, copies, counts, rng, n_frag):
     """Fragments, each from one copy, covering 2-4 neighbouring variant sites."""
     sites = sorted(counts)
@@ -388,6 +424,10 @@ def _opt_case(res, rng, ident):
                 if i < len(copies) and g.alleles[copies[i][0]].cn_config == "1":
                     copies[i] = rng.choice(owners)
     pert = _perturb(g, copies, rng) if rng.random() < 0.6 else [(a, b, set(), set()) for a, b in copies]
+    # a structure that names the whole-gene deletion explicitly (as the structure stage reports it): the deletion
+    # allele is a called copy without any gene region
+    dele = g.deletion_allele()
+    explicit_del = bool(dele) and dele in g.alleles and g.alleles[dele].minors and rng.random() < 0.15
     depth = rng.choice([10, 20, 30])
     eps = rng.choice([0, 0, 0.1, 0.2, 0.35])
     extra = {}
@@ -406,6 +446,21 @@ def _opt_case(res, rng, ident):
         for o_ in bypos[stress_pos]:
             extra[(stress_pos, o_)] = extra.get((stress_pos, o_), 0) + depth * rng.choice([1, 1, 2, 3])
         stressed = True
+    # weak spurious support for catalogued variants nobody carries: between a tenth and half of one copy's depth
+    # (around the per-site noise thresholds, which depend on the copy number at that very site)
+    weak = []
+    if rng.random() < 0.4:
+        carried_ = set()
+        for c in pert:
+            carried_ |= (tables.allele_variants(g, c[0], c[1]) | set(c[2])) - set(c[3])
+        spare_ = sorted(Mutation(*m) for m in g.mutations
+                        if Mutation(*m) not in carried_ and (m[0], m[1]) not in extra)
+        for m in rng.sample(spare_, min(len(spare_), rng.choice([1, 2, 3]))):
+            ncov = sum(1 for c in pert if g.has_coverage(c[0], m.pos))
+            k = int(round(depth * max(1, ncov) * rng.uniform(0.08, 0.48)))
+            if k:
+                extra[(m.pos, m.op)] = k
+                weak.append(m)
     counts = tables.noisy(tables.planted_counts(g, pert, depth, extra_variants=extra), rng, eps)
     use_phase = rng.random() < 0.4
     phases = _phases_for(g, pert, counts, rng, rng.choice([4, 10, 25])) if use_phase else None
@@ -431,8 +486,10 @@ def _opt_case(res, rng, ident):
     if indel_table and any(sum(v) != sum(n for o, n in counts.get(k[0], {}).items() if o[:3] != "ins")
                            for k, v in indel_table.items()):
         stressed = True  # rounding makes the evidence not exactly noise-free
-    cn = CNSolution(g, 0, tables.cn_list(g, copies))
+    cn = CNSolution(g, 0, tables.cn_list(g, copies) + ([g.alleles[dele].cn_config] if explicit_del else []))
     majors = collections.Counter(c[0] for c in copies)
+    if explicit_del:
+        majors[dele] += 1
     major = MajorSolution(0, collections.Counter({SolvedAllele(g, m): c for m, c in majors.items()}),
                           cn, list(novel))
     max_solutions = rng.choice([1, 1, 1, 3])
@@ -453,7 +510,8 @@ def _opt_case(res, rng, ident):
     desc = {"gene": gname, "genome": genome, "ident": ident, "depth": depth, "eps": eps,
             "planted": [[c[0], c[1], sorted(str(m) for m in c[2]), sorted(str(m) for m in c[3])] for c in pert],
             "novel": [str(m) for m in novel], "phase_fragments": len(phases or {}),
-            "max_solutions": max_solutions, "companions": len(companions), "novel_switch": use_novel}
+            "max_solutions": max_solutions, "companions": len(companions), "novel_switch": use_novel,
+            "explicit_deletion": explicit_del, "weak_support": [str(m) for m in weak]}
     lpmon.reset()
     with Capture() as cap:
         try:
@@ -470,9 +528,10 @@ def _opt_case(res, rng, ident):
             res.check("lp_" + p.clause, False, p.what, **p.w)
     if not cap.calls:
         return None
-    noise_free = eps == 0 and not novel and not use_phase and not stressed and not use_novel
+    noise_free = eps == 0 and not novel and not use_phase and not stressed and not use_novel and not weak
     nt = False
     for call in cap.calls:
+        check_filter(res, g, cov, call, desc)
         mine = call["major_sol"] is major or (
             collections.Counter({a.major: c for a, c in call["major_sol"].solution.items()}) == majors
             and list(call["major_sol"].added) == list(novel))
